@@ -43,6 +43,8 @@ def validator_obj(ip, name='validator'):
 
 @contract('lomond.utf8validator.Utf8Validator.reset', serves=['C05', 'C17'])
 class Reset(Contract):
+    inline_at_calls = True
+
     def setup(self, ip, v):
         return dict(self=validator_obj(ip))
 
